@@ -22,7 +22,7 @@ import (
 func init() {
 	Register(&Monitor{
 		ID: "C16",
-		Rule: "per case a random JSON text (objects/arrays nested to depth 30, empty containers in every position, duplicate/empty/odd keys, scalars of every kind at top level and inside, several concatenated top-level values) rendered with random whitespace, string escapes and number spellings -> xsel.ReadJson; oracle: direct recursive mapping written from the README (#obj/#arr, one element per member named by the key, one text node per scalar, siblings never merged) compared by parallel walk plus the C10 structural invariants, numbers accepted iff they read back to the same double with the minimal number of significant digits; " +
+		Rule: "per case a random JSON text (objects/arrays nested to depth 30, empty containers in every position, duplicate/empty/odd keys, scalars of every kind at top level and inside, several concatenated top-level values) rendered with random whitespace, string escapes and number spellings (one case in twelve with the first of several top-level values ending exactly on byte 512) -> xsel.ReadJson, once from a reader that delivers everything in one Read and once piecewise (pseudo-random chunks of 1..23 bytes / one byte per Read / a Read ending after every closing brace or bracket; malformed inputs use one of the four patterns chosen by their content); oracle: direct recursive mapping written from the README (#obj/#arr, one element per member named by the key, one text node per scalar, siblings never merged) compared by parallel walk plus the C10 structural invariants, numbers accepted iff they read back to the same double with the minimal number of significant digits; " +
 			"malformed: every proper prefix of the rendering (capped) plus single-token deletions/insertions: whenever encoding/json's Decoder.Decode loop rejects the bytes as a sequence of complete values, ReadJson must return a non-nil error. distinct_nontrivial = distinct value-shape signatures and distinct (malformation kind, shape)",
 		NCases: func(tier string) int { return map[string]int{"quick": 50000, "thorough": 3000000}[tier] },
 		Case:   c16Case,
@@ -265,13 +265,20 @@ func oracleJSONError(b []byte) error {
 	}
 }
 
+// safeReadJson reads b through a reader whose delivery pattern is determined by the content
+// (whole / chunks / single bytes / Reads ending after closers).
 func safeReadJson(b []byte) (c xsel.Cursor, err error) {
+	return safeReadJsonMode(b, contentMode(b))
+}
+
+func safeReadJsonMode(b []byte, mode int) (c xsel.Cursor, err error) {
 	defer func() {
 		if p := recover(); p != nil {
 			c, err = nil, fmt.Errorf("PANIC escaped ReadJson: %v", p)
 		}
 	}()
-	return xsel.ReadJson(bytes.NewReader(b))
+	rd, _ := hostileReader(b, mode)
+	return xsel.ReadJson(rd)
 }
 
 func c16Case(r *evid.Run, tier string, idx int, g *rng.R) {
@@ -283,11 +290,32 @@ func c16Case(r *evid.Run, tier string, idx int, g *rng.R) {
 	d := adoc.NewDoc()
 	nums := map[*adoc.Node]float64{}
 	var sb, shape strings.Builder
+	// one case in twelve: several top-level values, the first one padded so that its last byte is
+	// byte 512 of the text (the size of encoding/json's first Read)
+	boundary := g.P(8)
+	if boundary {
+		ntop = g.Range(2, 3)
+	}
 	for i := 0; i < ntop; i++ {
 		v := genJSON(g, 0)
 		tops = append(tops, v)
 		if i > 0 {
 			sb.WriteString(rng.Pick(g, []string{" ", "\n", "\n\n"}))
+		}
+		if i == 0 && boundary {
+			var one strings.Builder
+			v.render(g, &one)
+			if pad := 512 - one.Len(); pad >= 0 {
+				sb.WriteString(strings.Repeat(" ", pad))
+				r.Count("first_value_ends_on_byte_512", 1)
+			}
+			sb.WriteString(one.String())
+			if g.Bool() {
+				sb.WriteString(jws(g))
+			}
+			v.shape(&shape)
+			mapJSON(d, d.Root, v, nums)
+			continue
 		}
 		sb.WriteString(jws(g))
 		v.render(g, &sb)
@@ -301,10 +329,26 @@ func c16Case(r *evid.Run, tier string, idx int, g *rng.R) {
 		r.Broken(fmt.Sprintf("generated JSON rejected by encoding/json: %v: %s", oerr, text))
 		return
 	}
-	root, err := safeReadJson([]byte(text))
-	r.Eval(1)
+	// the valid text is read twice: in one Read, and through one of the piecewise readers
+	mode2 := 1 + idx%3
+	_, how := hostileReader(nil, mode2)
+	root, err := safeReadJsonMode([]byte(text), 0)
+	root2, err2 := safeReadJsonMode([]byte(text), mode2)
+	r.Eval(2)
+	r.Tab("reader", how, 1)
+	if err == nil && err2 != nil {
+		r.Violate("valid-rejected", map[string]any{"case": idx, "what": "ReadJson failed on valid JSON delivered as " + how + ": " + errStr(err2), "json": text})
+	} else if err == nil {
+		patchNumbers(root2, d.Root, nums)
+		if class, what := checkStore(root2, d); class != "" {
+			r.Violate("mapping/"+class, map[string]any{"case": idx, "what": "(input delivered as " + how + ") " + what, "json": text, "expected_tree": d.Dump()})
+			err = fmt.Errorf("skip")
+		}
+	}
 	if err != nil {
-		r.Violate("valid-rejected", map[string]any{"case": idx, "what": "ReadJson failed on valid JSON: " + errStr(err), "json": text})
+		if err.Error() != "skip" {
+			r.Violate("valid-rejected", map[string]any{"case": idx, "what": "ReadJson failed on valid JSON: " + errStr(err), "json": text})
+		}
 	} else {
 		patchNumbers(root, d.Root, nums)
 		if class, what := checkStore(root, d); class != "" {
